@@ -40,7 +40,7 @@ class ChildTimeout(Exception):
 # ------------------------------------------------------------------------------------------------
 
 def _body_spec(rng, tier, big_budget):
-    cls = rng.choice(['empty', 'hdr', 'nl', 'rand', 'nested', 'nested', 'wrapped', 'str'])
+    cls = rng.choice(['empty', 'hdr', 'nl', 'rand', 'nested', 'nested', 'wrapped', 'str', 'surr'])
     size = rng.choice([0, 1, 7, 100, 1000, 4096, 16384, 65535, 65536, 65537, 200000])
     if big_budget[0] > 0 and rng.random() < 0.12:
         size = rng.choice([1 << 20, 2 << 20, (4 << 20) + 3] if tier == 'quick' else [1 << 20, 3 << 20, (8 << 20) + 3])
@@ -84,6 +84,8 @@ def gen_sock(rng, tier, mode=None, boundary=None):
             spec = [rng.choice(['hdr', 'rand']), rng.choice([300000, 1 << 20, 2 << 20]), rng.randrange(1 << 30)]
             lat, echo = 0, False
         reqs.append(dict(pl=spec, lat=lat, err=rng.random() < 0.2, echo=echo,
+                         # raw: the handler answers with the body itself at top level (never None: empty bodies excepted)
+                         raw=(not echo and spec[0] != 'empty' and spec[1] > 0 and rng.random() < 0.3),
                          via='stream' if k < nstream else 'req'))
     rng.shuffle(reqs)
     if boundary == 'abandon':
@@ -187,10 +189,34 @@ def _once(case, hang=None):
 
 
 def run_case(case):
-    res = _once(case)
+    try:
+        res = _once(case)
+    except ChildTimeout:
+        # A case that normally takes a few seconds did not report within CHILD_TIMEOUT.  Once more with twice the
+        # time (a loaded machine must not produce a verdict); a second time-out is a hang of the transport itself
+        # and is reported as such (it used to end the whole check as a harness problem, also for real hangs).
+        global CHILD_TIMEOUT
+        old = CHILD_TIMEOUT
+        CHILD_TIMEOUT = 2 * old
+        try:
+            res = _once(case)
+            res['retried_after'] = ['child-timeout']
+        except ChildTimeout:
+            return dict(monitors=[dict(prop='C18', rule='no-response',
+                                       detail=f'the case did not finish within {old:.0f}s nor, re-run, within {2 * old:.0f}s '
+                                              '(requests, shutdown or client exit blocked)')],
+                        events=[('child-timeout',)], raw_events=[], results={}, stream_out=[], wall=3 * old, errors=['child timeout'])
+        finally:
+            CHILD_TIMEOUT = old
     if res['monitors'] and all(m['rule'] in SOFT for m in res['monitors']):
         first = [m['rule'] for m in res['monitors']]
-        res = _once(case, hang=45)
+        try:
+            res2 = _once(case, hang=45)
+        except ChildTimeout:
+            # the re-run with the larger bound did not even finish: the waits of the first run are confirmed
+            res['retried_after'] = first + ['re-run: child-timeout']
+            return res
+        res = res2
         res['retried_after'] = first
     return res
 
@@ -212,6 +238,8 @@ def eval_sock(case, rep):
     def expected(k):
         if reqs[k]['err']:
             return ['err', k, dig.get(k)]
+        if reqs[k].get('raw'):
+            return ['raw', dig.get(k)]
         return ['ok', k, dig.get(k), dig.get(k) if reqs[k]['echo'] else None]
 
     # 1. the handler saw exactly the payload that was sent (intact, routed)
@@ -232,7 +260,8 @@ def eval_sock(case, rep):
         elif got[0] == 'raised' and 'Timeout' in got[1]:
             add('no-response', f'request {k}: no response within the hang bound: {got}')
         elif got != expected(k):
-            rule = 'wrong-request' if got[0] in ('ok', 'err') and got[1] != k else 'response-corrupt'
+            rule = 'wrong-request' if (got[0] in ('ok', 'err') and got[1] != k) or \
+                (got[0] == 'raw' and got[1] in dig.values()) else 'response-corrupt'
             add(rule, f'request {k} got {got}, expected {expected(k)}')
     # 3. stream: input order, own responses
     sk = [k for k, r in enumerate(reqs) if r['via'] == 'stream']
@@ -358,12 +387,19 @@ def nontrivial(case, res):
 # the trace as actions of the model `Mux`
 # ------------------------------------------------------------------------------------------------
 
-def _resp(s):
-    """response summary -> model value: the handler model is `x -> err x | ok x`"""
+def _resp(s, k_hint=None, dig=None):
+    """response summary -> model value: the handler model is `x -> err x | ok x`.  A raw (top-level) response
+    carries no request number: it stands for the request whose body has that digest (the expected one first)."""
     if s and s[0] == 'ok' and isinstance(s[1], int):
         return f'ok{s[1]}'
     if s and s[0] == 'err' and isinstance(s[1], int):
         return f'err{s[1]}'
+    if s and s[0] == 'raw' and dig:
+        if k_hint is not None and dig.get(k_hint) == s[1]:
+            return f'ok{k_hint}'
+        for k, d in dig.items():
+            if d == s[1]:
+                return f'ok{k}'
     return 'garbage'
 
 
@@ -384,6 +420,8 @@ def model_lines(cid, case, res):
     stream_k = {k for k, r in enumerate(reqs) if r['via'] == 'stream'}
     fut_of_k = {}
     nd = lambda k: k if isinstance(k, int) else 999999      # noqa: E731
+    dig = {int(k): v for k, v in (res.get('digests') or {}).items()}
+    k_of_f = {}
     results = []
     sout = []
     for e in res['raw_events']:
@@ -395,6 +433,7 @@ def model_lines(cid, case, res):
             lines.append(f'a {"ssubmit" if k in stream_k else "submit"} {nd(k)} {rid}')
             rid_fut[rid] = nfut
             fut_of_k[k] = nfut
+            k_of_f[nfut] = k
             nfut += 1
         elif kind == 'send':
             ci = cconn.setdefault(e[1], len(cconn))
@@ -416,10 +455,10 @@ def model_lines(cid, case, res):
         elif kind == 'recv':
             ci = cconn.get(e[1], 99)
             f = rid_fut.get(e[2], 999999)
-            lines.append(f'a recv {ci} {f} {_resp(e[3])}')
+            lines.append(f'a recv {ci} {f} {_resp(e[3], k_of_f.get(f), dig)}')
         elif kind == 'syield':
-            lines.append(f'a syield {nd(e[1])} {_resp(e[2])}')
-            sout.append(f'{nd(e[1])}:{_resp(e[2])}')
+            lines.append(f'a syield {nd(e[1])} {_resp(e[2], e[1], dig)}')
+            sout.append(f'{nd(e[1])}:{_resp(e[2], e[1], dig)}')
     # final results as the requesters saw them, in the order the futures were set (= recv order)
     order = [ln.split() for ln in lines if ln.startswith('a recv ')]
     k_of_fut = {f: k for k, f in fut_of_k.items()}
@@ -432,7 +471,7 @@ def model_lines(cid, case, res):
         if allres.get(k) == ['abandoned']:
             results.append(f'{f}:{w[4]}')       # nobody read this future: the value it was set to
         else:
-            results.append(f'{f}:{_resp(allres.get(k))}')
+            results.append(f'{f}:{_resp(allres.get(k), k, dig)}')
     quiet = int(not res['monitors'])
     lines.append(f'end results={",".join(results) or "-"} sout={",".join(sout) or "-"} quiet={quiet}')
     return lines
